@@ -101,4 +101,22 @@ theorem pyIndex_lt {n : Nat} {k : Int} {j : Nat} (h : pyIndex n k = some j) : j 
 theorem mem_set_self {α : Type} {l : List α} {j : Nat} (h : j < l.length) (v : α) : v ∈ l.set j v :=
   List.mem_iff_getElem.2 ⟨j, by simpa using h, List.getElem_set_self _⟩
 
+/-! ### signature binding of the wrapped reductions -/
+
+theorem hasKey_append {γ : Type} (k : String) (a b : List (String × γ)) :
+    hasKey k (a ++ b) = (hasKey k a || hasKey k b) := by simp [hasKey, List.any_append]
+
+theorem hasKey_zip {γ : Type} (k : String) : ∀ (ps : List String) (vs : List γ),
+    hasKey k (List.zip ps vs) = decide (ps.idxOf k < vs.length ∧ ps.idxOf k < ps.length)
+  | [], vs => by simp [hasKey]
+  | p :: ps, [] => by simp [hasKey]
+  | p :: ps, v :: vs => by
+    have ih := hasKey_zip k ps vs
+    simp only [hasKey] at ih ⊢
+    simp only [List.zip_cons_cons, List.any_cons, ih, List.idxOf_cons]
+    by_cases h : p = k
+    · subst h; simp
+    · have h' : (p == k) = false := by simpa using h
+      simp [h']
+
 end Scico.Block
